@@ -1,27 +1,66 @@
 # CPU_OFF and COMMON_ASSUME are injected by props.py
 _CFG = [c for c in CPU_OFF if c["name"] in ("default", "purego", "noavx2")]
+_CFG2 = [c for c in CPU_OFF if c["name"] in ("default", "noavx2")]
+_PUREGO = [c for c in CPU_OFF if c["name"] == "purego"]
 _MODES = [("mldsa44", "./sign/mldsa/mldsa44"), ("mldsa65", "./sign/mldsa/mldsa65"), ("mldsa87", "./sign/mldsa/mldsa87"),
           ("mode2", "./sign/dilithium/mode2"), ("mode3", "./sign/dilithium/mode3"), ("mode5", "./sign/dilithium/mode5")]
 SPEC = {
     "bins": [
-        {"name": "c04", "pkg": "./zz_verif/c04", "run": "^TestC04(Transcript|Verdict)$", "configs": _CFG, "quick_configs": ["default", "noavx2"],
+        # black-box: transcripts (pk, sk, signature bytes) and Verify verdicts against ref/mldsa, AVX2 on and off
+        {"name": "c04", "pkg": "./zz_verif/c04", "run": "^TestC04(Transcript|Verdict)$", "configs": _CFG2,
          "shards": {"quick": 2, "thorough": 16}},
-        {"name": "c04-rare", "pkg": "./zz_verif/c04", "run": "^TestC04RareBranches$", "shards": {"quick": 6, "thorough": 16}},
+        {"name": "c04-purego", "pkg": "./zz_verif/c04", "run": "^TestC04(Transcript|Verdict)$", "configs": _PUREGO, "tiers": ["thorough"],
+         "shards": {"thorough": 4}},
+        # black-box: reference-driven search for rare signing paths (hint weight > omega, weight == omega, >= 15 rounds)
+        {"name": "c04-rare", "pkg": "./zz_verif/c04", "run": "^TestC04RareBranches$", "shards": {"quick": 4, "thorough": 16}},
+        # white-box: sign/internal/dilithium (scalar sweeps, polynomial routines generic and AVX2, T0/T1/Le16 packing)
         {"name": "c04-common", "pkg": "./sign/internal/dilithium", "run": "^TestC04", "whitebox": True, "configs": _CFG,
          "quick_configs": ["default", "noavx2"], "shards": {"quick": 1, "thorough": 16}},
     ] + [
-        {"name": "c04-int-" + n, "pkg": p + "/internal", "run": "^TestC04", "whitebox": True, "configs": _CFG,
+        # white-box: the six generated mode packages (decompose/useHint/makeHint sweeps, packing, samplers, hedged internal.SignTo)
+        {"name": "c04-int-" + n, "pkg": p + "/internal", "run": "^TestC04", "whitebox": True, "configs": _CFG2,
          "quick_configs": ["default"], "shards": {"quick": 1, "thorough": 16}} for n, p in _MODES
     ] + [
+        # white-box: unsafeSignInternal / unsafeVerifyInternal of the public ML-DSA packages (hedged signing with chosen rnd)
         {"name": "c04-pkg-" + n, "pkg": p, "run": "^TestC04", "whitebox": True, "shards": {"quick": 1, "thorough": 4}} for n, p in _MODES[:3]
     ],
-    "rule": "TBD",
-    "assumptions": COMMON_ASSUME + [],
+    "rule": "case = (parameter set, seed xi, message, ctx, rnd[, alteration]) drawn by rapid (edge-biased seeds, message lengths around SHAKE block "
+            "boundaries, ctx in {nil, empty, 1, 255, random 0..255 bytes}) over ML-DSA-44/65/87 and Dilithium2/3/5, or one point of an enumerated "
+            "rounding/packing domain. non-trivial = (a) a signing case in which the reference signer needed >= 2 rounds (classes per rejection branch: "
+            "z-norm, r0-norm, ct0-overflow, hint-weight>omega; rare paths are additionally searched for with the reference signer: hint weight > omega, "
+            "final hint weight == omega, >= 15 rounds), (b) a strictness probe: a signature made with the real secret key that is valid except for exactly "
+            "one rule (||z||_inf == gamma1-beta, swapped / duplicated hint indices, non-zero hint padding, decreasing or oversized switch-over byte, flipped "
+            "c~ bit, trailing bytes, truncation) or valid with the extreme norm gamma1-beta-1, (c) a hint encoding that decodes successfully, a sampler input "
+            "(incl. searched inputs with a 23-bit candidate exactly on the rejection boundary q / q-1). Distinct by FNV-64 of (sub-check, seed, message, ctx, "
+            "alteration, signature). Enumerated points of the rounding sweeps are counted as evaluations only.",
+    "assumptions": COMMON_ASSUME + [
+        "zz_verif/ref/mldsa is the oracle: written from FIPS 204 / the round-3.1 specification with int64 arithmetic and x/crypto/sha3, validated in every "
+        "process against 72 NIST ACVP FIPS204 vectors (keyGen, sigGen deterministic+hedged, sigVer) and, in the black-box binary, against the published "
+        "SHA-256 digests of the pq-crystals PQCsignKAT files for all six parameter sets (600 keygen+sign transcripts)",
+        "the pure-ML-DSA framing 0x00||len(ctx)||ctx||M with a non-empty ctx is pinned by the FIPS 204 text only (ACVP vectors here use the internal "
+        "interface, the KAT files use the empty context)",
+        "signing paths of negligible probability (||c*t0||_inf >= gamma2: about 1e-7 per attempt for gamma2=(q-1)/88, far less otherwise) are not reached",
+    ],
     "budget": {"quick": 900, "thorough": 3600},
 }
 
 MANIFEST = {
-    "technique": "TBD",
-    "text": "TBD",
-    "note": "TBD",
+    "technique": "differential property-based testing (rapid) of all six ML-DSA / Dilithium packages against an independent, instrumented reference "
+                 "implementation of FIPS 204 / Dilithium 3.1 (byte equality of keys and deterministic + hedged signatures, equality of Verify verdicts on "
+                 "honest, mutated and reference-made strictness-probe signatures); exhaustive enumeration of power2round, decompose, useHint, le2qModQ, "
+                 "makeHint, ReduceLe2Q/modQ (2^32, thorough) and of every packed value at every position class; generic vs AVX2 vs purego polynomial "
+                 "routines against plain-integer ring arithmetic; reference-driven search for rare signing paths and for rejection-boundary sampler inputs",
+    "text": "An independent reference (zz_verif/ref/mldsa; self-tested against NIST ACVP vectors and the published KAT digests of the pq-crystals code) "
+            "computes KeyGen_internal, Sign_internal (reporting the rejection branch of every round) and Verify_internal with the pure-ML-DSA framing. For "
+            "generated (seed, message, context, rnd) circl's public key, private key, deterministic signature (public SignTo) and hedged signature "
+            "(internal.SignTo / unsafeSignInternal with chosen rnd, white-box) must equal the reference byte for byte, and Verify must return the reference's "
+            "verdict on honest triples, on byte-mutated signatures / keys / messages / contexts and on strictness probes that the reference signer makes "
+            "with the real secret key so that exactly one rule is broken (norm exactly at gamma1-beta found by planting a mask coefficient, non-canonical "
+            "hint encodings, altered c~, trailing bytes). White-box tests sweep the scalar rounding and reduction functions over their whole domains and "
+            "compare packing, samplers (incl. the four-way SHAKE variants) and NTT / pointwise arithmetic (dispatching and generic) with the reference. "
+            "Exploration is the right level for the signing/verification part: the input space is unbounded and the oracle is exact per case; the scalar "
+            "functions are small enough to enumerate completely.",
+    "note": "trusts x/crypto/sha3, crypto/aes (KAT DRBG) and the reference (validated as stated); the c*t0-overflow branch of the signing loop is never "
+            "reached; arm64 back-ends are not executed on this machine; randomized public SignTo is only checked to produce signatures the reference accepts; "
+            "white-box sub-checks become 'unavailable' (not failures) if the internal packages are refactored; never establishes absence",
 }
